@@ -189,8 +189,8 @@ def gen_history(r, fmt, nch_eff, nframes, k2=False):
 
 def gen_env(rng, tier):
     items = []
-    n_hist = 300 if tier == "quick" else 5000
-    nfr = 60 if tier == "quick" else 90
+    n_hist = 300 if tier == "quick" else 3000
+    nfr = 60 if tier == "quick" else 80
     for k in range(n_hist):
         r = rng.fork(f"env{k}")
         fmt = ENV_FMTS[k % 4] if k % 10 != 9 else ENV_FMTS[4 + (k // 10) % 2]
@@ -365,7 +365,10 @@ def env_verdict(it, obs, stats):
             if not (min(L, D) - tol <= E <= max(L, D) + tol):
                 probs.append(("between", dict(prev=l, detected=d, env=e, gain=g)))
             if not (min(L, D) <= E <= max(L, D)):
-                stats["inexact_between"] = stats.get("inexact_between", 0) + 1
+                if isf:
+                    stats["inexact_between"] = stats.get("inexact_between", 0) + 1
+                else:  # integer formats: exact `between` is a theorem (c19_int_step / c19_int_run)
+                    probs.append(("between_exact_integer", dict(prev=l, detected=d, env=e, gain=g)))
             if g == 0.0 and E != D:
                 probs.append(("zero_time", dict(prev=l, detected=d, env=e)))
             if g == 0.0:
